@@ -2,6 +2,7 @@ package specgen
 
 import (
 	"fmt"
+	"strings"
 
 	"pgregory.net/rapid"
 )
@@ -43,7 +44,7 @@ func AdmittedCombos() []ParamCombo {
 // ExchangeOptions steer GenExchangeDoc.
 type ExchangeOptions struct {
 	Formats    bool   // string/number formats on primitives
-	TimeFormat string // the single time format used in this document ("date-time", "date", "time", "" = none)
+	TimeFormat string // the single time format used in this document ("date-time", "date", "time", "unix", "unix-seconds", "unix-milli", "unix-micro", "unix-nano", "" = none); the unix ones also apply to integers
 	Validators bool
 	Defaults   bool
 	Docs       bool // descriptions and deprecated flags on operations, parameters and schemas
@@ -67,13 +68,20 @@ func primSchema(t *rapid.T, eo ExchangeOptions) *Schema {
 	if eo.Formats && rapid.IntRange(0, 2).Draw(t, "fmt") == 0 {
 		switch k {
 		case "string":
-			fs := []string{"uuid", "byte", "ipv4", "ipv6", "uri", "int64", "int32", "duration"}
+			// every format that selects a text codec of its own for a parameter (gen/ir uriFormat) or a JSON
+			// member; formats with validators (hostname, email) belong to C03
+			fs := []string{"uuid", "byte", "ipv4", "ipv6", "ip", "uri", "mac", "duration", "password",
+				"int64", "int32", "int16", "int8", "int", "uint64", "uint32", "uint16", "uint8", "uint", "float32", "float64"}
 			if eo.TimeFormat != "" {
-				fs = append(fs, eo.TimeFormat, eo.TimeFormat)
+				fs = append(fs, eo.TimeFormat, eo.TimeFormat, eo.TimeFormat, eo.TimeFormat)
 			}
 			s.Format = rapid.SampledFrom(fs).Draw(t, "sfmt")
 		case "integer":
-			s.Format = rapid.SampledFrom([]string{"int32", "int64", "int8", "int16", "uint32", "uint8", "unix-seconds"}).Draw(t, "ifmt")
+			fs := []string{"int32", "int64", "int8", "int16", "int", "uint64", "uint32", "uint16", "uint8", "uint"}
+			if strings.HasPrefix(eo.TimeFormat, "unix") {
+				fs = append(fs, eo.TimeFormat, eo.TimeFormat, eo.TimeFormat)
+			}
+			s.Format = rapid.SampledFrom(fs).Draw(t, "ifmt")
 		case "number":
 			s.Format = rapid.SampledFrom([]string{"float", "double", "int32", "int64"}).Draw(t, "nfmt")
 		}
